@@ -150,6 +150,10 @@ func genC03(r *h.Rng, tier string, idx int) *h.Plan {
 	ids := []string{"q1", "q2", "q3", "q4", "q5", "q6", "q7", "q8"}
 	p.Cfg["ids"] = toIface(ids)
 	nf := r.Range(0, 8)
+	lookalike := r.P(1, 4)
+	if lookalike {
+		nf = r.Range(4, 8)
+	}
 	keys := []string{"p", "q", "r"}
 	vals := []string{"a", "b", "x"}
 	for i := 0; i < nf; i++ {
@@ -158,6 +162,10 @@ func genC03(r *h.Rng, tier string, idx int) *h.Plan {
 			if r.P(2, 3) {
 				if r.P(1, 8) {
 					f[k] = map[string]interface{}{"in": r.Pick(vals)} // object value: a `var` code term can return it
+				} else if lookalike {
+					// values of different types that print alike: a variable bound to
+					// one of them must keep its type when it is substituted
+					f[k] = r.PickAny([]interface{}{float64(1), "1", true, "true"})
 				} else {
 					f[k] = r.Pick(vals)
 				}
